@@ -80,8 +80,15 @@ Qed.
 
 (* unfold the projections of ROps so that ring/field/lra see plain real arithmetic *)
 Ltac rnum :=
+  change (num ROps) with R in *;
   cbn [num add sub mul div neg nabs nexp nln rpow ipow lit leb ltb eqb ROps
-       ilit zero one Rlit float_of_Z] in *.
+       ilit zero one Rlit float_of_Z] in *;
+  repeat match goal with
+  | |- context [Pos.to_nat ?p] =>
+      let n := eval vm_compute in (Pos.to_nat p) in change (Pos.to_nat p) with n
+  | H : context [Pos.to_nat ?p] |- _ =>
+      let n := eval vm_compute in (Pos.to_nat p) in change (Pos.to_nat p) with n in H
+  end.
 
 Lemma if_true {A} (c : bool) (a b : A) : c = true -> (if c then a else b) = a.
 Proof. intros ->; reflexivity. Qed.
